@@ -1,6 +1,6 @@
 """TAB — tables that must agree (C18 command line, C11 format dispatch, C05 operators ...)."""
 import os, re
-from mir import (peel, op_place, op_local, const_int, const_str, describe_origin, closure_of_origin, fn_uses)
+from mir import (peel, op_place, op_local, const_int, const_str, describe_origin, closure_of_origin, fn_uses, natural_loop)
 import tables as T
 
 
@@ -932,6 +932,17 @@ def tab_cli_derive_when(run, pc, R="TAB-cli"):
             if edge is not None and f.edge_dominates(b, edge, cb):
                 not_printing = True
     unnamed = any(f.edge_dominates(sb, none_, cb) for sb, some_, none_ in option_tests(f, lambda d: d.endswith(".output_filename")))
+    # ... and only once every input file name is known: not inside the loop that collects them
+    pushes = [bi for bi, t in pc.calls() if re.search(r"Vec::<.*>::(push|extend|append|insert)$", t.get("callee") or "") and _deep(pc, t["args"][0], 5).endswith(".input_filenames")]
+    site_in_pc = cb if f is pc else next((bi for bi, t in pc.calls() if (t.get("resolved") or "") == f.id), None)
+    in_collect_loop = False
+    for h in pc.reachable():
+        lp = natural_loop(pc, h)
+        if lp and any(pb in lp for pb in pushes) and site_in_pc in lp:
+            in_collect_loop = True
+    run.check(bool(pushes) and site_in_pc is not None and not in_collect_loop, R, R + "|derive|after-inputs", pc.loc(),
+              "output names are derived after all input file names have been collected",
+              "parse_command derives output file names inside the loop that still collects the input file names: a group written before the group that names the input gets no output file, silently" if pushes else "mechanism not found: where input file names are collected")
     run.check(not_printing and unnamed, R, R + "|derive|when", f.loc(ct["span"]), "a name is derived only for a group that is not printed and has no output file name",
               "parse_command derives an output file name %s: a group that only prints would fail with `cannot derive safe output filename` (or get a file it did not ask for)" % (
                   "also for groups that print" if not not_printing else "also for groups that already name their file"))
